@@ -90,3 +90,142 @@ impl TypeIndexCollector {
         forall|i: int| 0 <= i < self.entries.full().len() ==> (#[trigger] self.entries.full()[i]).pack_idx < self.packs@.len()
     }
 }
+
+// =====================================================================================================
+// Property-level layer (lemmas over the contracts above): "looking up a blob by type and id succeeds exactly
+// when some index file lists that blob, and the returned pack / location are those of one such listing".
+// `packs` = the packs handed to extend (the caller passes only packs NOT marked for deletion).
+// =====================================================================================================
+pub open spec fn blob_in_pack(p: IndexPack, id: BlobId, loc: BlobLocation) -> bool {
+    exists|j: int| 0 <= j < p.blobs@.len() && (#[trigger] p.blobs@[j]).id == id && p.blobs@[j].location == loc
+}
+// some pack among the first n, filed under type t, with pack id pk, lists blob (id, loc)
+pub open spec fn listed(packs: Seq<IndexPack>, t: BlobType, n: int, id: BlobId, pk: PackId, loc: BlobLocation) -> bool
+    decreases n
+{
+    if n <= 0 { false } else {
+        listed(packs, t, n - 1, id, pk, loc)
+        || (pack_type_spec(packs[n - 1]) == t && packs[n - 1].id == pk && blob_in_pack(packs[n - 1], id, loc))
+    }
+}
+pub open spec fn empty_state() -> TcState { TcState { packs: Seq::empty(), full: Seq::empty(), ids: Seq::empty(), total: 0 } }
+
+// every collected entry IS a listing (soundness of the collector)
+pub proof fn lemma_fed_sound(packs: Seq<IndexPack>, t: BlobType, n: int, i: int)
+    requires
+        0 <= n <= packs.len(), fed_fits(empty_state(), packs, t, n),
+        0 <= i < fed(empty_state(), packs, t, n).full.len(),
+    ensures ({
+        let f = fed(empty_state(), packs, t, n);
+        let e = f.full[i];
+        e.pack_idx < f.packs.len() && listed(packs, t, n, e.id, f.packs[e.pack_idx as int].0, e.location)
+    }),
+    decreases n
+{
+    if n > 0 {
+        let prev = fed(empty_state(), packs, t, n - 1);
+        let p = packs[n - 1];
+        assert(fed_fits(empty_state(), packs, t, n - 1));
+        assert(prev.packs.len() <= 0xFFFF_FFFF);
+        if pack_type_spec(p) == t {
+            let f = fed(empty_state(), packs, t, n);
+            if i < prev.full.len() {
+                lemma_fed_sound(packs, t, n - 1, i);
+                assert(f.full[i] == prev.full[i]);
+                assert(f.packs[prev.full[i].pack_idx as int] == prev.packs[prev.full[i].pack_idx as int]);
+            } else {
+                let j = i - prev.full.len();
+                let idx = prev.packs.len() as u32;
+                assert(f.full[i] == entries_of_pack(p, idx)[j]);
+                assert(entries_of_pack(p, idx)[j] == SortedEntry { id: p.blobs@[j].id, pack_idx: idx, location: p.blobs@[j].location });
+                assert(f.packs[idx as int] == (p.id, pack_size_spec(p)));
+                assert(blob_in_pack(p, p.blobs@[j].id, p.blobs@[j].location));
+            }
+        } else {
+            lemma_fed_sound(packs, t, n - 1, i);
+        }
+    }
+}
+
+// every listing IS collected (completeness of the collector); returns the witness index
+pub proof fn lemma_fed_complete(packs: Seq<IndexPack>, t: BlobType, n: int, id: BlobId, pk: PackId, loc: BlobLocation) -> (i: int)
+    requires
+        0 <= n <= packs.len(), fed_fits(empty_state(), packs, t, n),
+        listed(packs, t, n, id, pk, loc),
+    ensures ({
+        let f = fed(empty_state(), packs, t, n);
+        0 <= i < f.full.len() && f.full[i].id == id && f.full[i].location == loc
+            && f.full[i].pack_idx < f.packs.len() && f.packs[f.full[i].pack_idx as int].0 == pk
+    }),
+    decreases n
+{
+    let prev = fed(empty_state(), packs, t, n - 1);
+    let p = packs[n - 1];
+    let f = fed(empty_state(), packs, t, n);
+    assert(fed_fits(empty_state(), packs, t, n - 1));
+    assert(prev.packs.len() <= 0xFFFF_FFFF);
+    if listed(packs, t, n - 1, id, pk, loc) {
+        let i0 = lemma_fed_complete(packs, t, n - 1, id, pk, loc);
+        if pack_type_spec(p) == t {
+            assert(f.full[i0] == prev.full[i0]);
+            assert(f.packs[prev.full[i0].pack_idx as int] == prev.packs[prev.full[i0].pack_idx as int]);
+        }
+        i0
+    } else {
+        let j = choose|j: int| 0 <= j < p.blobs@.len() && (#[trigger] p.blobs@[j]).id == id && p.blobs@[j].location == loc;
+        let idx = prev.packs.len() as u32;
+        let i1 = prev.full.len() + j;
+        assert(f.full[i1] == entries_of_pack(p, idx)[j]);
+        assert(f.packs[idx as int] == (p.id, pack_size_spec(p)));
+        i1
+    }
+}
+
+// THE statement of C17 for the full index mode of one type: `ix` is what into_index produced from the
+// collector state (a permutation of the collected entries, same pack table); then
+//   * an entry with id exists in the index  <==>  some fed pack lists id          (lookup succeeds exactly when listed)
+//   * every index entry denotes one such listing (pack id, location)                (what get_id returns is a listing)
+pub proof fn theorem_lookup_iff_listed(packs: Seq<IndexPack>, t: BlobType, ix: Seq<SortedEntry>, id: BlobId)
+    requires
+        fed_fits(empty_state(), packs, t, packs.len() as int),
+        ix.to_multiset() == fed(empty_state(), packs, t, packs.len() as int).full.to_multiset(),
+    ensures
+        (exists|i: int| 0 <= i < ix.len() && (#[trigger] ix[i]).id == id)
+            <==> (exists|pk: PackId, loc: BlobLocation| listed(packs, t, packs.len() as int, id, pk, loc)),
+        forall|i: int| 0 <= i < ix.len() ==> {
+            let f = fed(empty_state(), packs, t, packs.len() as int);
+            (#[trigger] ix[i]).pack_idx < f.packs.len()
+                && listed(packs, t, packs.len() as int, ix[i].id, f.packs[ix[i].pack_idx as int].0, ix[i].location)
+        },
+{
+    let n = packs.len() as int;
+    let f = fed(empty_state(), packs, t, n);
+    ix.to_multiset_ensures();
+    f.full.to_multiset_ensures();
+    // every index entry is a collected entry, hence a listing
+    assert forall|i: int| 0 <= i < ix.len() implies
+        (#[trigger] ix[i]).pack_idx < f.packs.len() && listed(packs, t, n, ix[i].id, f.packs[ix[i].pack_idx as int].0, ix[i].location) by {
+        let e = ix[i];
+        assert(ix.contains(e));
+        assert(f.full.to_multiset().count(e) > 0);
+        assert(f.full.contains(e));
+        let k = choose|k: int| 0 <= k < f.full.len() && f.full[k] == e;
+        lemma_fed_sound(packs, t, n, k);
+    }
+    // listed ==> found
+    if exists|pk: PackId, loc: BlobLocation| listed(packs, t, n, id, pk, loc) {
+        let (pk, loc) = choose|pk: PackId, loc: BlobLocation| listed(packs, t, n, id, pk, loc);
+        let k = lemma_fed_complete(packs, t, n, id, pk, loc);
+        let e = f.full[k];
+        assert(f.full.contains(e));
+        assert(ix.to_multiset().count(e) > 0);
+        assert(ix.contains(e));
+        let i = choose|i: int| 0 <= i < ix.len() && ix[i] == e;
+        assert(ix[i].id == id);
+    }
+    // found ==> listed
+    if exists|i: int| 0 <= i < ix.len() && (#[trigger] ix[i]).id == id {
+        let i = choose|i: int| 0 <= i < ix.len() && (#[trigger] ix[i]).id == id;
+        assert(listed(packs, t, n, ix[i].id, f.packs[ix[i].pack_idx as int].0, ix[i].location));
+    }
+}
